@@ -899,7 +899,8 @@ class Element(object):
                     # a child has been refused: detach the ones already added and keep the previous children
                     if old_children is not None:
                         for c in value.list:
-                            c._parent = None
+                            if not any(c is old for old in old_children.list):  # the previous children stay attached
+                                c._parent = None
                         super(Element, self).__setattr__(name, old_children)
                     raise
             else:
